@@ -608,6 +608,10 @@ mod imp {
             "lit" => mode_lit(&mut rng, n),
             "var" => mode_var(&mut rng, n, &opts, budget, flag("--dump")),
             "pairs" => mode_pairs(&arg("--file").expect("--file"), &opts, budget),
+            "lexfile" => {
+                let text = std::fs::read_to_string(arg("--file").expect("--file")).expect("read");
+                println!("{}", match lex_names(&text) { Some(v) => v.join(" "), None => "ERR".into() });
+            }
             _ => { eprintln!("unknown mode"); std::process::exit(2); }
         }
     }
